@@ -25,6 +25,8 @@
 //
 // (f) real one-byte elements on buffers of 2^31..3*2^31 slots, one child process each (astro.go).
 //
+// (g) finalizer-based collectability probe for popped elements (gc.go).
+//
 // Element types: the deque is generic, so the static element type is an input too. Besides *int,
 // int and string, the cover and a reduced number of walks run over uint8 (1 byte), struct{} (0
 // bytes; single-valued, so only Len/panics/iteration counts/hook state are informative and the
@@ -73,15 +75,22 @@ func main() {
 			regress(r, sh)
 		}
 		cover(r, sh)
-		if wide {
-			band(r, sh)
-		}
 		walks(r, sh)
-		if wide {
-			hugeWalks(r, sh)
-		}
 		hugeElems(r)
 		astroReal(r)
+		gcProbes(r)
+		// The groups with astronomic arguments on zero-size elements come last and only while nothing
+		// has been refuted: on a broken library such a call may loop over 2^62 slots, i.e. never
+		// return, and a verdict already reached must not be lost to the wall-clock watchdog (there
+		// is no time-based verdict in this monitor).
+		if wide {
+			if r.NViolations() == 0 {
+				band(r, sh)
+				hugeWalks(r, sh)
+			} else {
+				r.Count("skipped", "astronomic-argument groups (band, huge), because a violation was already recorded", 1)
+			}
+		}
 		sh.finish()
 	})
 }
